@@ -780,6 +780,14 @@ func (iqr *IQR) Sort(sortColumns []string, less func(*Record, *Record) bool, lim
 		if err != nil {
 			return err
 		}
+		if sortColumnValues[i] == nil {
+			// No record has this column (e.g., it did not survive a stats
+			// command): every record lacks the value.
+			sortColumnValues[i] = make([]sutils.CValueEnclosure, iqr.NumberOfRecords())
+			for j := range sortColumnValues[i] {
+				sortColumnValues[i][j] = *backfillCVal
+			}
+		}
 	}
 
 	records := make([]*Record, iqr.NumberOfRecords())
